@@ -192,6 +192,21 @@ impl CurForms for arc_swap::strategy::test_strategies::FillFastSlots {
     }
 }
 
+impl CurForms for std::sync::RwLock<()> {
+    fn off_cell() -> &'static std::sync::OnceLock<usize> {
+        static OFF: std::sync::OnceLock<usize> = std::sync::OnceLock::new();
+        &OFF
+    }
+    fn cas_g(c: &ArcSwapAny<T, Self>, cur: Guard<T, Self>, new: T) -> Guard<T, Self> {
+        let r = c.compare_and_swap(&*cur, new);
+        drop(cur);
+        r
+    }
+    fn cas_gref(c: &ArcSwapAny<T, Self>, cur: &Guard<T, Self>, new: T) -> Guard<T, Self> {
+        c.compare_and_swap(&**cur, new)
+    }
+}
+
 pub struct Ctx<S: Strategy<T>> {
     pub w: Arc<Mutex<World<S>>>,
 }
